@@ -34,6 +34,7 @@ const shimRoot = "github.com/tinode/chat/server/zzverif/"
 var swapsTime = map[string]string{
 	"time":                        shimRoot + "vtime",
 	"github.com/tinode/snowflake": shimRoot + "vsnow",
+	"golang.org/x/crypto/bcrypt":  shimRoot + "vbcrypt",
 }
 var swapsAll = map[string]string{
 	"time":        shimRoot + "vtime",
